@@ -111,6 +111,9 @@ def verify_function(w: World, relpath: str, qualname: str, contract: Contract) -
             res.obligations = ex.obligations
             res.trusted_used = ex.trusted_used
             for fc in contract.focus:
+                flt = getattr(w, "clause_filter", None)
+                if flt is not None and not any(flt(pfx) for pfx in fc["only"]):
+                    continue  # none of this focus run's clauses is wanted by the caller (a check of another property)
                 ex2 = Executor(w, module, src.node, qualname, contract, relpath)
                 ex2.closure_globals = _closure_globals(w, module, src)
                 ex2.prune = True
